@@ -701,6 +701,7 @@ func (c *Compiler) structCode(typ *runtime.Type, isPtr bool) (*StructCode, error
 	}
 	fieldMap := c.getFieldMap(fields)
 	duplicatedFieldMap := c.getDuplicatedFieldMap(fieldMap)
+	code.ambiguous = c.ambiguousFields(fieldMap)
 	code.fields = c.filteredDuplicatedFields(fields, duplicatedFieldMap)
 	if !code.disableIndirectConversion && !indirect && isPtr {
 		code.enableIndirect()
@@ -842,7 +843,48 @@ func (c *Compiler) getAnonymousFieldMap(field *StructFieldCode, depth int) map[s
 	for k, v := range c.getFieldMapFromAnonymousParent(structCode.fields, depth) {
 		fieldMap[k] = append(fieldMap[k], v...)
 	}
+	for _, dropped := range structCode.ambiguous {
+		dropped.field.depth = depth + dropped.depth
+		fieldMap[dropped.field.key] = append(fieldMap[dropped.field.key], dropped.field)
+	}
 	return fieldMap
+}
+
+// ambiguousFields returns, for every name that no field of the struct wins, the fields of that
+// name at the shallowest embedding depth ( the tagged ones, if there are any ).
+func (c *Compiler) ambiguousFields(fieldMap map[string][]*StructFieldCode) []ambiguousField {
+	ambiguous := []ambiguousField{}
+	for _, allFields := range fieldMap {
+		if len(allFields) == 1 {
+			continue
+		}
+		minDepth := allFields[0].depth
+		for _, field := range allFields {
+			if field.depth < minDepth {
+				minDepth = field.depth
+			}
+		}
+		shallowest := make([]*StructFieldCode, 0, len(allFields))
+		tagged := make([]*StructFieldCode, 0, len(allFields))
+		for _, field := range allFields {
+			if field.depth == minDepth {
+				shallowest = append(shallowest, field)
+				if field.isTaggedKey {
+					tagged = append(tagged, field)
+				}
+			}
+		}
+		if len(shallowest) == 1 || len(tagged) == 1 {
+			continue
+		}
+		if len(tagged) > 1 {
+			shallowest = tagged
+		}
+		for _, field := range shallowest {
+			ambiguous = append(ambiguous, ambiguousField{field: field, depth: minDepth})
+		}
+	}
+	return ambiguous
 }
 
 func (c *Compiler) getFieldMapFromAnonymousParent(fields []*StructFieldCode, depth int) map[string][]*StructFieldCode {
